@@ -1384,23 +1384,46 @@ def _ref_generate(tab, rm, net, account, start, end):
             tab.hash256(bytes([0xef if net == "test" else 0x80]) + c.k + b"\x01")
 
 
+def _new_paper_wallet(inp):
+    """a wallet the library makes up itself (fresh entropy) or builds from entropy: inp["new"] = {via, n}"""
+    from btc_hd_wallet import PaperWallet
+    nw, pw, test = inp["new"], untext(inp["password"]), inp["net"] == "test"
+    f = argform({k_: v_ for k_, v_ in inp.items() if k_ != "mnemonic"}, 2)
+    if nw["via"] == "new_wallet":
+        return PaperWallet.new_wallet(nw["n"], pw, test) if f else PaperWallet.new_wallet(mnemonic_length=nw["n"], password=pw, testnet=test)
+    if nw["via"] == "entropy_bits":
+        return PaperWallet.from_entropy_bits(nw["n"], pw, test) if f else PaperWallet.from_entropy_bits(entropy_bits=nw["n"], password=pw, testnet=test)
+    hx = untext(nw["hex"])
+    return PaperWallet.from_entropy_hex(hx, pw, test) if f else PaperWallet.from_entropy_hex(entropy_hex=hx, password=pw, testnet=test)
+
+
 @act
 def Generate(inp, tab, ev):
     """inp: mnemonic+password or seed, net, account, start, end (at most a few rows)"""
     import json as _json
     import os
     from . import tlc as _tlc
+    prebuilt = None
+    if inp.get("new") is not None:
+        # the sentence is the library's own choice: the document is judged against the sentence the WALLET reports and
+        # the passphrase that was asked for (what a reader of the MASTER block would type in again)
+        prebuilt = call(_new_paper_wallet, inp)
+        mn_ = getattr(prebuilt[1], "mnemonic", None) if prebuilt[0] else None
+        inp["mnemonic"] = T(mn_ if isinstance(mn_, str) else "")
+    finp = {k_: v_ for k_, v_ in inp.items() if k_ != "mnemonic"} if prebuilt is not None else inp
     rm = _ref_master(tab, inp)
     ev["master"] = rm.json()
     st, en = _iv(inp)
     _ref_generate(tab, rm, inp["net"], inp["account"], st, en)
 
     def go():
-        w = _paper_wallet(inp)
-        f = argform(inp, 3)
+        if prebuilt is not None and not prebuilt[0]:
+            raise prebuilt[1]
+        w = prebuilt[1] if prebuilt is not None else _paper_wallet(inp)
+        f = argform(finp, 3)
         gen = lambda: w.generate(account=inp["account"], interval=(st, en)) if f == 0 else w.generate(inp["account"], (st, en)) if f == 1 else \
             w.generate(interval=(st, en), account=inp["account"])
-        if argform(inp, 2) == 0:
+        if argform(finp, 2) == 0:
             # the caller edits the document it was given (strips the master block, keeps one row, appends a label) and
             # asks for it again: the second document is a fresh, complete one
             first = gen()
